@@ -145,13 +145,14 @@ let line_names (bs : n list) : string =
       else None) lines in
   let names = List.sort_uniq compare names in
   if names = [] then "-" else String.concat "+" names
-(* OPEN finding C02-open-text-not-analysed: didOpen caches the text it carries but does not analyse it; the analysis stays
-   the FILE's until the next didChange / didSave of the document. The Coq model has no disk; the driver keeps one
+(* finding C02-open-text-not-analysed (REPAIRED): the unrepaired didOpen caches the text it carries but does not analyse it;
+   the analysis stays the FILE's until the next didChange / didSave of the document. The Coq model has no disk; the driver keeps one
    (what the harness writes: the text of note O, of a didSave, the cached text at a didSave without text; note P =
-   didOpen that leaves the disk alone) and predicts which text the outline is computed from. VERIF_C02_DIDOPEN=1 =
-   the repaired code (fixes/C02-didopen-analysed.diff): analysed text = cached text after every notification.
+   didOpen that leaves the disk alone) and predicts which text the outline is computed from. didopen_fixed = true =
+   the repaired code (fixes/C02-didopen-analysed.diff, in /repo): analysed text = cached text after every notification;
+   VERIF_C02_DIDOPEN=0 = the model of the code before the repair.
    Class open_text_not_disk: the history contains a note P whose text is not the text of the file at that moment. *)
-let didopen_fixed = envb "VERIF_C02_DIDOPEN" false
+let didopen_fixed = envb "VERIF_C02_DIDOPEN" true
 let analysed line =
   let names, toks = split_table (split_ws line) in
   let tab = Array.of_list (List.map mk_uri names) in
